@@ -14,6 +14,7 @@ pub struct Env {
     pub err: PathBuf,
     pub clock: Arc<VClock>,
     pub ctx: Arc<Ctx>,
+    owns_ctx: bool,
 }
 impl Env {
     pub fn new(tag: &str) -> Self {
@@ -35,6 +36,26 @@ impl Env {
             err,
             clock,
             ctx,
+            owns_ctx: true,
+        }
+    }
+    /// An environment inside an already active hook context (scheduler runs): uses that
+    /// context's clock and never replaces or clears the context.
+    pub fn in_current(tag: &str) -> Self {
+        let ctx = hooks::current_ctx().expect("active hook context");
+        let clock = ctx.clock.clone().unwrap_or_else(|| VClock::new(hooks::base_instant()));
+        let root = Scratch::new(tag);
+        let dir = root.path().join("d");
+        std::fs::create_dir_all(&dir).expect("mkdir log dir");
+        let err = crate::scratch::root().join("err.log");
+        std::fs::write(&err, b"").ok();
+        Self {
+            root,
+            dir,
+            err,
+            clock,
+            ctx,
+            owns_ctx: false,
         }
     }
     /// Makes the hooks of this environment the active ones (until `leave`).
@@ -42,8 +63,10 @@ impl Env {
         hooks::set_ctx(Some(Arc::clone(&self.ctx)));
     }
     pub fn leave(&self) {
-        self.ctx.release_ticks();
-        hooks::set_ctx(None);
+        if self.owns_ctx {
+            self.ctx.release_ticks();
+            hooks::set_ctx(None);
+        }
     }
     /// To be called after every operation: files created by it get the current virtual instant.
     pub fn observe(&self) {
@@ -55,6 +78,9 @@ impl Env {
 }
 impl Drop for Env {
     fn drop(&mut self) {
+        if !self.owns_ctx {
+            return;
+        }
         self.ctx.release_ticks();
         hooks::set_ctx(None);
     }
